@@ -251,6 +251,30 @@ def observe(cfg, want):
             vs = P.CellVariable(c.m, interior(xs).copy(), bc_with(cfg, "c", c.m, d))
             P.solvePDE(vs, [P.transientTerm(vs, dt, alpha)] + list(sp) + [P.constantSourceTerm(P.CellVariable(c.m, gs))])
             obs["r_fixed"] = lift_sol(np.asarray(vs._value))
+        # limits (floating point, supporting only): dt -> infinity returns the steady solution, dt -> 0 the
+        # old field, implicit and explicit steps agree to O(dt^2)
+        lim = {"checked": False}
+        if A is not None:
+            Msteady = Mbc + A
+            cs = np.linalg.cond(Msteady.toarray())
+            if np.isfinite(cs) and cs < 1e6:
+                gs = interior((A @ xs.ravel()).reshape(full))
+                def step(dtv, start, explicit=False):
+                    vv = P.CellVariable(c.m, start.copy(), bc_with(cfg, "c", c.m, d))
+                    if explicit:
+                        rhs_e = P.constantSourceTerm(P.CellVariable(c.m, gs)) - A @ np.asarray(vv._value).ravel()
+                        return np.asarray(P.solveExplicitPDE(vv, dtv, rhs_e).value)
+                    P.solvePDE(vv, [P.transientTerm(vv, dtv, 1.0)] + list(sp) + [P.constantSourceTerm(P.CellVariable(c.m, gs))])
+                    return np.asarray(vv.value)
+                scale = max(1.0, float(np.abs(xs).max()), float(np.abs(old).max()))
+                e_inf = float(np.abs(step(1e12, old) - interior(xs)).max()) / scale
+                e_zero = float(np.abs(step(1e-12, old) - old).max()) / scale
+                d1 = float(np.abs(step(1e-3, old) - step(1e-3, old, explicit=True)).max())
+                d2 = float(np.abs(step(5e-4, old) - step(5e-4, old, explicit=True)).max())
+                fpx = lambda x: int(min(2_000_000_000, round(x * 1e9))) if np.isfinite(x) else 2_000_000_000
+                lim = {"checked": True, "inf": fpx(e_inf), "zero": fpx(e_zero),
+                       "ratio_milli": int(round(1000 * d1 / d2)) if d2 > 1e-13 else 4000, "d1": fpx(d1)}
+        obs["limits"] = lim
         # explicit step:  old + dt*RHS on interior cells, boundary values re-imposed, input untouched
         vin = P.CellVariable(c.m, old.copy(), bc_with(cfg, "c", c.m, d))
         rhs = np.zeros(int(np.prod(full)))
